@@ -127,6 +127,10 @@ def _execute(prog, digests=True):
 
   import mujoco_warp as mjw
 
+  if "geom_margin" in (prog.get("batch") or {}) and prog.get("batch_factor_seed") is not None:
+    # margins made non-zero below must stay inside put_model's input space (it refuses margins on CCD pairs with MULTICCD enabled)
+    o = prog["model"].get("opt") or {}
+    prog = dict(prog, model=dict(prog["model"], opt=dict(o, disableflags=int(o.get("disableflags", 0)) | 524288)))
   try:
     mjm, m = core.make_model(prog["model"], batch_sizes=prog.get("batch"))
   except (NotImplementedError, ValueError):
